@@ -70,9 +70,12 @@ def _gen(rng, kind, tier):
 
 
 def _unit(rng):
-    """Length unit of the case: a power of ten in 1e-4..1e4 for a fifth of the cases (a grid in nanometres or in
+    """Length unit of the case: a power of ten in 1e-9..1e9 for a fifth of the cases (a grid in nanometres or in
     kilometres is as supported as one with cells of order one)."""
-    return float(10.0 ** rng.integers(-4, 5)) if rng.random() < 0.2 else 1.0
+    if rng.random() >= 0.2:
+        return 1.0
+    # round 7 (C05_19): down to nanometres expressed in metres and up to 1e9, where absolute tolerances of 1e-8 bite
+    return float(10.0 ** int(rng.choice([-9, -8, -6, -4, -3, -2, -1, 0, 1, 2, 3, 4, 6, 9])))
 
 
 def _gen_once(rng, kind, tier):
